@@ -11,7 +11,7 @@ Local Open Scope N_scope.
 Theorem coverage21 :
   forall (E D : list N -> list N -> list N),
   (forall k b, length (E k b) = 16%nat) -> (forall k b, length b = 16%nat -> D k (E k b) = b) ->
-  forall counted x file, wf_sbin x -> build21_gen E counted x = Ok file ->
+  forall x file, wf_sbin x -> build21_gen E true x = Ok file ->
   exists hb hm kb cbb bs k,
     let signed := hb ++ hm ++ kb ++ cbb ++ (if has_sha (x_flags x) then sha256 bs else []) in
     file = signed ++ x_sig x ++ bs /\
